@@ -59,7 +59,7 @@ func (x *hist) rotate(v, v2 int) {
 	msg := recoverytypes.NewMsgRotateRecoveryAddress(addr.String(), addr.String(), rot.String(), hex.EncodeToString(proof[:]))
 	ms := recoverykeeper.NewMsgServerImpl(a.RecoveryKeeper)
 	res, e := x.runMsg(func(c sdk.Context) error { _, err := ms.RotateRecoveryAddress(sdk.WrapSDKContext(c), msg); return err })
-	x.markRot(v, v2)
+	x.markRot(v, v2, res == "ROk")
 	x.record(fmt.Sprintf("ORotate %d %d", v, v2), jop{Op: "rotate", V: v, To: v2, Err: e}, res, "")
 }
 
@@ -264,7 +264,7 @@ func (x *hist) rotateHalf(v, v2 int) {
 		delete(x.rrHolder, addr.String())
 		x.rrHolder[rot.String()] = holder
 	}
-	x.markRot(v, v2)
+	x.markRot(v, v2, res == "ROk")
 	x.record(fmt.Sprintf("ORotate %d %d", v, v2), jop{Op: "rotate", V: v, To: v2, Err: e, Note: "MsgRotateValidatorByHalfRRTokenHolder"}, res, "")
 }
 
@@ -284,7 +284,10 @@ func (x *hist) rotTargets() []int {
 	}
 	return out
 }
-func (x *hist) markRot(v, v2 int) {
+func (x *hist) markRot(v, v2 int, accepted bool) {
+	if accepted {
+		x.renamePerson(v, v2)
+	}
 	if x.rotUsed == nil {
 		x.rotUsed = map[int]bool{}
 	}
